@@ -1858,8 +1858,8 @@ func Harness_C06_acked() {
 }
 
 // Harness_C06_openfault: an operation that meets one failing open (too many open files) at any point fails or succeeds as a whole: reopening shows the state before or the state after, and the state after once the operation reported success.
-// bounds: one handle on a stack of 2 tables; operation Add, a two-table Addition (name checking off and on), or CompactAll; the k-th open of a file (k = 1..10) by the operation fails once; the handle is closed, then a fresh handle reads
-// assumes: the only I/O fault is the one failing open (injected by the harness; the properties otherwise exclude I/O faults)
+// bounds: one handle on a stack of 2 tables; operation Add, a two-table Addition (name checking off and on), CompactAll, or none; either the k-th open of a file (k = 1..10) by the operation fails once, or the k-th read of tables.list (k = 1..5) by the operation or by the Close that follows; the handle is closed, then a fresh handle reads
+// assumes: the only I/O fault is the one failing open or read (injected by the harness; the properties otherwise exclude I/O faults)
 // covers: done, failed
 func Harness_C06_openfault() {
 	cfg := stackCfg(0)
@@ -1871,8 +1871,13 @@ func Harness_C06_openfault() {
 	if st == nil {
 		return
 	}
-	op := VerifChoose(3)
-	VerifFaultOpen(VerifIntRange(1, 10))
+	op := VerifChoose(4)
+	readFault := VerifChoose(2) == 1
+	if readFault {
+		VerifFaultReadFile(VerifIntRange(1, 5)) // stays armed through Close
+	} else {
+		VerifFaultOpen(VerifIntRange(1, 10))
+	}
 	var err error
 	switch op {
 	case 0:
@@ -1881,9 +1886,12 @@ func Harness_C06_openfault() {
 		err = twoTableTxn(st, "p7", "q7")
 	case 2:
 		err = st.CompactAll(nil)
+	case 3:
+		// nothing but the Close below
 	}
 	VerifFaultOpen(0)
 	st.Close()
+	VerifFaultReadFile(0)
 	if err != nil {
 		VerifCover("failed")
 	}
@@ -1902,7 +1910,7 @@ func Harness_C06_openfault() {
 		_, hasQ := got.refs["q7"]
 		VerifAssert(has == hasQ, "partially-applied-transaction")
 	}
-	if op != 2 {
+	if op < 2 {
 		if err == nil {
 			VerifAssert(has, "acknowledged-transaction-lost")
 		}
